@@ -151,6 +151,8 @@ pub struct Gen<'a> {
     plant_at: Option<usize>,
     stmt_counter: usize,
     budget: isize,
+    /// functions may read but never write variables that are not their own (session lines)
+    pub no_global_writes: bool,
 }
 
 const STRS_ASCII: &[&str] = &["", "a", "abc", "hallo wereld", "x{}y", "{}", "nl", "0", "12", "a\\nb", "Z z"];
@@ -173,6 +175,7 @@ impl<'a> Gen<'a> {
             plant_at: None,
             stmt_counter: 0,
             budget: 0,
+            no_global_writes: false,
         }
     }
 
@@ -205,6 +208,16 @@ impl<'a> Gen<'a> {
         self.visible().into_iter().filter(|v| f(v)).cloned().collect()
     }
 
+    /// variables a generated statement may assign to / mutate in place
+    fn writable<F: Fn(&Var) -> bool>(&self, f: F) -> Vec<Var> {
+        let restrict = self.no_global_writes && self.in_function();
+        self.visible()
+            .into_iter()
+            .filter(|v| f(v) && !(restrict && v.global_top))
+            .cloned()
+            .collect()
+    }
+
     fn declare(&mut self, ty: Ty, min_len: usize) -> String {
         let name = format!("v{}", self.next_var);
         self.next_var += 1;
@@ -223,9 +236,14 @@ impl<'a> Gen<'a> {
         self.scopes[0].vars.push(v);
     }
 
-    pub fn set_counters(&mut self, var: usize, fun: usize) {
+    pub fn set_counters(&mut self, var: usize, fun: usize, par: usize) {
         self.next_var = var;
         self.next_fun = fun;
+        self.next_par = par;
+    }
+
+    pub fn counters(&self) -> (usize, usize, usize) {
+        (self.next_var, self.next_fun, self.next_par)
     }
 
     fn push_scope(&mut self) {
@@ -249,7 +267,7 @@ impl<'a> Gen<'a> {
         }
     }
 
-    fn value_ty(&mut self) -> Ty {
+    pub fn value_ty(&mut self) -> Ty {
         let c = &self.cfg;
         let w = [c.w_int, c.w_float, c.w_bool, c.w_str, c.w_arr, c.w_anyarr];
         match self.rng.weighted(&w) {
@@ -272,7 +290,7 @@ impl<'a> Gen<'a> {
 
     // ---- literals ----------------------------------------------------------------------------
 
-    fn str_lit(&mut self) -> (String, usize) {
+    pub fn str_lit(&mut self) -> (String, usize) {
         let s = if self.cfg.multibyte && self.rng.chance(1, 2) {
             *self.rng.pick(STRS_MULTI)
         } else {
@@ -282,7 +300,7 @@ impl<'a> Gen<'a> {
         (format!("\"{}\"", s), n)
     }
 
-    fn nonempty_str_lit(&mut self) -> String {
+    pub fn nonempty_str_lit(&mut self) -> String {
         loop {
             let (s, n) = self.str_lit();
             if n > 0 {
@@ -325,7 +343,9 @@ impl<'a> Gen<'a> {
     }
 
     fn var_of(&mut self, ty: &Ty) -> Option<String> {
-        let vs = self.vars_where(|v| &v.ty == ty);
+        // session functions never alias a whole global array (they could then mutate it in place)
+        let restrict = self.no_global_writes && self.in_function() && matches!(ty, Ty::Arr(_, _) | Ty::AnyArr(_));
+        let vs = self.vars_where(|v| &v.ty == ty && !(restrict && v.global_top));
         if vs.is_empty() {
             None
         } else {
@@ -352,7 +372,7 @@ impl<'a> Gen<'a> {
         }
     }
 
-    fn index_for(&mut self, len: usize) -> String {
+    pub fn index_for(&mut self, len: usize) -> String {
         // valid positive or negative index
         let i = self.rng.usize(len);
         if self.rng.chance(1, 4) {
@@ -654,6 +674,11 @@ impl<'a> Gen<'a> {
         let d = depth.saturating_sub(1);
         let items: Vec<String> = (0..len)
             .map(|_| {
+                if leaf {
+                    // no nesting at the leaves (keeps generation finite whatever the swarm weights are)
+                    let t = self.scalar_ty();
+                    return self.expr(&t, 0);
+                }
                 let t = if self.rng.chance(1, 4) {
                     // nest an existing array (aliasing) or a fresh one
                     let arrs = self.vars_where(|v| matches!(v.ty, Ty::Arr(_, _) | Ty::AnyArr(_)));
@@ -683,7 +708,7 @@ impl<'a> Gen<'a> {
 
     // ---- functions ---------------------------------------------------------------------------
 
-    fn function_literal(&mut self, name: &str, params: &[Ty], ret: &Ty, depth: usize) -> String {
+    pub fn function_literal(&mut self, name: &str, params: &[Ty], ret: &Ty, depth: usize) -> String {
         let base = self.scopes.len();
         self.push_scope();
         self.fn_base.push(base);
@@ -736,7 +761,7 @@ impl<'a> Gen<'a> {
         format!("functie {}({}) {{ {} }}", name, pnames.join(", "), body)
     }
 
-    fn fun_sig(&mut self) -> (Vec<Ty>, Ty) {
+    pub fn fun_sig(&mut self) -> (Vec<Ty>, Ty) {
         let n = self.rng.usize(4);
         let mut params = Vec::new();
         for _ in 0..n {
@@ -926,7 +951,7 @@ impl<'a> Gen<'a> {
     fn stmt_assign(&mut self, d: usize) -> String {
         // a string variable with a known minimum length is never re-assigned (statements that index
         // it may run again later: loop bodies, functions), only mutated in place, which keeps its length
-        let vs = self.vars_where(|v| !v.frozen && !matches!(v.ty, Ty::Fun(_, _)) && !(v.ty == Ty::Str && v.min_len > 0));
+        let vs = self.writable(|v| !v.frozen && !matches!(v.ty, Ty::Fun(_, _)) && !(v.ty == Ty::Str && v.min_len > 0));
         if vs.is_empty() {
             return self.stmt_decl(d);
         }
@@ -937,7 +962,7 @@ impl<'a> Gen<'a> {
     }
 
     fn stmt_opassign(&mut self, d: usize) -> String {
-        let vs = self.vars_where(|v| !v.frozen && matches!(v.ty, Ty::Int | Ty::Float));
+        let vs = self.writable(|v| !v.frozen && matches!(v.ty, Ty::Int | Ty::Float));
         if vs.is_empty() {
             return self.stmt_decl(d);
         }
@@ -954,7 +979,7 @@ impl<'a> Gen<'a> {
     }
 
     fn stmt_elem(&mut self, d: usize) -> String {
-        let vs = self.vars_where(|v| matches!(&v.ty, Ty::Arr(_, n) | Ty::AnyArr(n) if *n > 0));
+        let vs = self.writable(|v| matches!(&v.ty, Ty::Arr(_, n) | Ty::AnyArr(n) if *n > 0));
         if vs.is_empty() {
             return self.stmt_decl(d);
         }
@@ -977,7 +1002,7 @@ impl<'a> Gen<'a> {
     }
 
     fn stmt_strelem(&mut self) -> String {
-        let vs = self.vars_where(|v| v.ty == Ty::Str && v.min_len > 0 && !v.frozen);
+        let vs = self.writable(|v| v.ty == Ty::Str && v.min_len > 0 && !v.frozen);
         if vs.is_empty() {
             return self.stmt_decl(1);
         }
@@ -1161,7 +1186,7 @@ impl<'a> Gen<'a> {
     }
 
     fn stmt_cycle(&mut self) -> String {
-        let vs = self.vars_where(|v| matches!(v.ty, Ty::AnyArr(n) if n > 0));
+        let vs = self.writable(|v| matches!(v.ty, Ty::AnyArr(n) if n > 0));
         if vs.is_empty() {
             let n = 1 + self.rng.usize(3);
             let e = self.anyarr_expr(n, 1, false);
